@@ -70,7 +70,7 @@ func main() {
 	for i := range keys {
 		keys[i] = fmt.Sprintf("case-%d", i)
 	}
-	harness.RunSharded(run, keys, harness.ShardOptions{PerCaseTimeout: 100 * time.Second, Group: func(key string) string { return fmt.Sprint(fullsync.ChunkOf(key)) },
+	harness.RunSharded(run, keys, harness.ShardOptions{PerCaseTimeout: 20 * time.Minute, Group: func(key string) string { return fmt.Sprint(fullsync.ChunkOf(key)) },
 		AbnormalSig: func(key, why, tail string) (string, string) {
 			return "replay-does-not-terminate-or-crashes", "replay " + why
 		}}, func(key string, res *harness.CaseResult) {
@@ -149,8 +149,12 @@ func main() {
 			w["keys"] = ks
 			return w
 		}
+		if out.Slow {
+			res.Inconc("replay still progressing after 15 min (slow, not hung): %s", sc.String())
+			return
+		}
 		if !out.Returned {
-			res.Violation("replay-hangs", "Send did not return within 75 s", witness())
+			res.Violation("replay-hangs", "Send did not return and made no progress for two 3 s windows", witness())
 			return
 		}
 		if sc.Bisync && out.Err != nil && strings.Contains(out.Err.Error(), "Bad data format") {
